@@ -144,7 +144,10 @@ Example fuse_steps_example :
     [(results, SStr 99); (99%positive, STuple [SFun 1; STuple [SFun 1; STuple [SFun 1]]])] /\
   dask_get_log fam_apply (fst (fuse_steps chain_dict [FInline 21; FInline 22; FAlias results 99])) results
     = dask_get_log fam_apply chain_dict results /\
-  snd (fuse_steps e_dict [FInline 11]) = false.      (* a has two dependents: not a legal step *)
+  snd (fuse_steps e_dict [FInline 11]) = false /\     (* a has two dependents: not a legal step *)
+  (* the hypotheses of fuse_steps_preserve *)
+  nodupp (dkeys chain_dict) = true /\ length (dask_sched chain_dict) = length chain_dict /\
+  avoids results [FInline 21; FInline 22; FAlias results 99] = true.
 Proof. crunch. Qed.
 
 (* queries; get_upstream_tasks lists a task once per edge *)
